@@ -47,7 +47,7 @@ func init() {
 				}
 				return 150_000
 			}, Run: c20Converter,
-				Min: map[string]int64{"strings": 100000, "with_opacity": 20000, "opacity_register_reused": 5000, "circles": 20000, "circle_only_paths": 1000, "offsets_nonzero": 20000, "icons_with_six_distinct_opacities": 2000}},
+				Min: map[string]int64{"strings": 100000, "with_opacity": 20000, "opacity_register_reused": 5000, "circles": 20000, "circle_only_paths": 1000, "offsets_nonzero": 20000, "icons_with_six_distinct_opacities": 2000, "zero_radius_circles": 3000}},
 			{Name: "concat", N: func(t string) uint64 {
 				if t == "thorough" {
 					return 8_000_000
@@ -359,7 +359,8 @@ func c20Converter(c *run.Ctx, idx uint64) {
 	// ParsePath: several paths of one icon sharing the opacity registers
 	adjs := map[float32]uint8{}
 	wantAdj := map[float32]uint8{}
-	opacities := []float32{0.3, 0.54, 0.87, 0.38, 0.26, 0.12, 0.9, 0.5, 0.2, 0.7, 0.6, float32(r.Intn(100)) / 100}
+	// 0.5, 0.501 and 0.502 are distinct opacities that give the same 8-bit blend weight
+	opacities := []float32{0.3, 0.54, 0.87, 0.38, 0.26, 0.12, 0.9, 0.5, 0.501, 0.502, 0.2, 0.7, 0.6, float32(r.Intn(100)) / 100}
 	nPaths := r.Range(1, 5)
 	many := r.Chance(1, 4) // an icon with many paths and as many distinct opacities as there are registers for (six)
 	if many {
@@ -416,6 +417,10 @@ func c20Converter(c *run.Ctx, idx uint64) {
 		if pi == 0 && r.Chance(1, 3) || p.D == "" {
 			for n := r.Range(1, 3); n > 0; n-- {
 				circles = append(circles, mdicons.Circle{Cx: float32(r.Range(2, 40)) + float32(r.Intn(2))/2, Cy: float32(r.Range(2, 40)), R: float32(r.Range(1, 8)) + float32(r.Intn(4))/4})
+				if r.Chance(1, 8) {
+					circles[len(circles)-1].R = 0 // a circle list may hold a point: it still is two half-turn arcs
+					c.Count("zero_radius_circles", 1)
+				}
 				c.Count("circles", 1)
 			}
 			if p.D == "" {
